@@ -32,14 +32,45 @@ impl Parse for TypeWithPunctuatedMeta {
     }
 }
 
-/// Looks through the invisible group that wraps a `macro_rules` type fragment (`$t:ty`).
+/// Looks through the invisible group that wraps a `macro_rules` type fragment (`$t:ty`) and
+/// through parentheses.
 #[inline]
 pub(crate) fn ungroup_type(mut ty: &Type) -> &Type {
-    while let Type::Group(group) = ty {
-        ty = group.elem.as_ref();
+    loop {
+        match ty {
+            Type::Group(group) => ty = group.elem.as_ref(),
+            Type::Paren(paren) => ty = paren.elem.as_ref(),
+            _ => break ty,
+        }
+    }
+}
+
+/// The tokens of the type behind every reference layer of `ty`, as they are written after
+/// `type Target =`. A trait object without a lifetime bound takes the lifetime of the reference it
+/// sits behind there (`&'a dyn Trait` is `&'a (dyn Trait + 'a)`, a bare `dyn Trait` would be
+/// `dyn Trait + 'static`), and needs no parentheses.
+#[inline]
+pub(crate) fn dereference_target(ty: &Type) -> proc_macro2::TokenStream {
+    let mut ty = ty;
+    let mut lifetime = None;
+
+    while let Type::Reference(reference) = ungroup_type(ty) {
+        lifetime = reference.lifetime.as_ref();
+        ty = reference.elem.as_ref();
     }
 
-    ty
+    match ungroup_type(ty) {
+        Type::TraitObject(object) => {
+            let has_lifetime =
+                object.bounds.iter().any(|bound| matches!(bound, syn::TypeParamBound::Lifetime(_)));
+
+            match lifetime {
+                Some(lifetime) if !has_lifetime => quote!(#object + #lifetime),
+                _ => quote!(#object),
+            }
+        },
+        _ => quote!(#ty),
+    }
 }
 
 #[inline]
